@@ -18,7 +18,73 @@ def c10(chk, tier):
     LC.field_loads(chk, tier)
 
 
+def second_load_refused(chk, tier):
+    """loading into a dataset that already holds data is refused and changes nothing"""
+    import os, random
+    from . import present as P
+    from .common import workdir, rm, seed
+    rng = random.Random(seed() + 5)
+    wd = workdir("second")
+    try:
+        for trial in range(6 if tier == "quick" else 40):
+            n = rng.randint(4, 12)
+            e0 = P.epoch_of(2014, 1, 1) + 1800 * rng.randint(0, 1000)
+            mk = lambda off, k, scale: [(e0 + (off + i) * 1800, scale * ((i * 7) % 5)) for i in range(k)]
+            f1 = P.Files(wd, mk(0, n + 2, 1.0), mk(-1, n + 5, 0.125), mk(1, n - 1, 3.0), "UTC", tag="a%d" % trial)
+            f2 = P.Files(wd, mk(3, n + 2, 2.0), mk(2, n + 5, 0.25), mk(4, n - 1, 5.0), "UTC", tag="b%d" % trial)
+            db = os.path.join(wd, "d%d.sqlite3" % trial)
+            o = P.cli(f1.load_argv(db))
+            if not o.ok:
+                chk.violation("first load failed: " + o.describe(), {"kind": "second_load", "trial": trial})
+                continue
+            before = P.logical_dump(db)
+            # also after later steps the dataset still refuses a load
+            if trial % 2:
+                P.cli(["classify", db, "-s", "1.5", "-j", "2.0"])
+                before = P.logical_dump(db)
+            o = P.cli((f2 if trial % 3 else f1).load_argv(db))
+            after = P.logical_dump(db)
+            chk.count("evaluations"); chk.count("traces_validated_against_impl"); chk.count("distinct_nontrivial")
+            if o.ok or not isinstance(o.exc, ValueError) or "already populated" not in str(o.exc):
+                chk.violation("a second load into a populated dataset was not refused: " + o.describe(),
+                              {"kind": "second_load", "trial": trial, "outcome": o.describe()})
+            elif before != after:
+                chk.violation("a refused second load changed the dataset", {"kind": "second_load", "trial": trial})
+    finally:
+        rm(wd)
+
+
+def c11(chk, tier):
+    from . import tz_checks as TZ
+    from . import tlc
+    chk.cov["rule"] = (
+        "timestamps: TLC (TimeZone.tla) first checks the oracle on all abstract zones (<= 2 transitions): zero "
+        "valid instants only inside a forward jump, two only inside a backward jump, complete; then, from zone "
+        "tables parsed out of pytz's own TZif files by an independent parser and handed over as literal "
+        "constants, computes ValidInstants for probe local times at +-{0,1 s,59 s,1 min,1 h} on both local sides "
+        "of transitions and at seeded plain instants (1902-2037); the epoch stored by the real "
+        "generate_timestamped_rows must be a member. Judged only where every candidate era has a whole-minute "
+        "offset in the file (pytz rounds offsets to minutes). refusals: every MCLoad configuration the "
+        "specification refuses (non-uniform rain, missing ET at each position) must raise the matching "
+        "ValueError; a second load must be refused and leave the logical dump unchanged. "
+        "non-trivial = probe next to a transition / refused configuration")
+    q = tier == "quick"
+    cfg = tlc.cfg_text({"TMax": "16" if q else "24", "NT": "2", "MaxJump": "2"}, spec="Spec",
+                       invariants=["AtMostTwo", "NoneOnlyInGap", "TwoOnlyInFold", "AllRenderBack", "Complete"])
+    res = tlc.run("MCTimeZone", cfg, workers=8, invariants=["AtMostTwo", "NoneOnlyInGap", "TwoOnlyInFold",
+                                                             "AllRenderBack", "Complete"])
+    chk.add_tlc(res, "MCTimeZone abstract zones")
+    if res.get("violated"):
+        chk.violation("TimeZone.tla: oracle unsound on abstract zones: " + res["error"][:500], {"kind": "tlc"})
+    TZ.tz_check(chk, tier)
+    LC.replay_loads(chk, "MCLoad refusals", QUICK if q else THOROUGH, want_refusals=True)
+    second_load_refused(chk, tier)
+
+
 def dispatch_replay(chk, rp):
+    if rp.get("kind") == "tz":
+        from . import tz_checks as TZ
+        return TZ.replay_file(chk, rp)
     if rp.get("kind") == "load_config":
         LC.replay_file(chk, rp)
     else:
@@ -27,4 +93,5 @@ def dispatch_replay(chk, rp):
 
 REGISTRY = {
     "C10": {"run": c10, "replay": dispatch_replay},
+    "C11": {"run": c11, "replay": dispatch_replay},
 }
